@@ -15,6 +15,7 @@ LEVEL_TEXT = (
     "only after stopping; the 'timeout' and 'none' results exist on the paths the statement names"
     "; a manager stopped while its start loop is still running starts no further trigger; the state subscription is released for every entity whatever the name order; legacy wait_until satisfies the hold clauses on scripted histories and the new one returns the first event's arguments on both expiry paths"
     "; every given timeout (0 included) creates the timeout trigger; 'none' only when a time trigger is the only condition; stop() arriving at any point of a trigger decorator's start() releases exactly what was acquired; the dictionary a wait returns is its own copy"
+    '; shared bus/broker/webhook listeners are released when the last subscriber leaves; startup/shutdown words denote no instant inside a wait; None arguments mean absent; the state cycle starts whether or not anything was subscribed; the documented argument names are accepted; a negative timeout is a timeout now'
 )
 LEVEL_NOTE = (
     "assumes: any call outside the reviewed no-raise table may raise, any await may be cancelled; notify_del functions are "
